@@ -61,11 +61,12 @@ type OpEnv struct {
 	AddStr   func(a, b fmt.Stringer) string
 	EqAny    func(a, b interface{}) string
 	Pick     func(m Money) Money
-	AnyPick  interface{}                     // holds a func(Money) Money: a callee known only at run time
-	SubI     func(a, b int) int              // an overload on plain ints
-	HalfF    func(x float64) float64         // a float parameter: integer literals in its argument are retyped
-	MatchTag func(a, b string) bool          // candidate for the operator "matches"
-	VarTwo   func(a Money, b ...Money) Money // two parameters, but variadic: ill-shaped
+	AnyPick  interface{}                      // holds a func(Money) Money: a callee known only at run time
+	ShowAll  func(...interface{}) interface{} // the signature the checker marks as a fast call
+	SubI     func(a, b int) int               // an overload on plain ints
+	HalfF    func(x float64) float64          // a float parameter: integer literals in its argument are retyped
+	MatchTag func(a, b string) bool           // candidate for the operator "matches"
+	VarTwo   func(a Money, b ...Money) Money  // two parameters, but variadic: ill-shaped
 	Sum      func(xs []int) int
 	// ill-shaped candidates
 	NotFunc  int
@@ -127,6 +128,7 @@ func newOpEnv(r *runner.Rng) *OpEnv {
 	e.HalfF = func(x float64) float64 { add("HalfF(%v)", x); return x / 2 }
 	e.MatchTag = func(a, b string) bool { add("MatchTag(%q,%q)", a, b); return len(a) == len(b) }
 	e.VarTwo = func(a Money, b ...Money) Money { return a }
+	e.ShowAll = func(xs ...interface{}) interface{} { add("ShowAll(%v)", xs); return len(xs) }
 	e.AnyPick = func(m Money) Money { add("AnyPick(%v)", m); return Money{m.Cents + 2, m.Cur} }
 	e.Sum = func(xs []int) int {
 		add("Sum(%v)", xs)
@@ -467,6 +469,9 @@ func (g *c17Gen) top(n int) *term.Term {
 		return g.money(n)
 	case 9:
 		// argument of a callee whose type is only known at run time
+		if r.Bool() {
+			return tt(term.KCall, "ShowAll", term.AnyT, g.mark("argument-of-fast-call", g.money(n/2)), g.mark("argument-of-fast-call", g.ints(n/2)))
+		}
 		return tt(term.KCall, "AnyPick", term.AnyT, g.mark("argument-of-dynamic-callee", g.money(n-1)))
 	case 8:
 		// an == overloaded with interface parameters also captures nil
